@@ -94,6 +94,17 @@ var connScripts = map[string]struct {
 
 func peek(s *varlink.Service, ls []*vnet.Listener) string {
 	running, l, cnt, proto, addr := s.VerifPeek()
+	if cnt == varlink.VerifUnknown {
+		// the tree keeps no such counter: count the accepted connections the service has not closed
+		cnt = 0
+		for _, x := range ls {
+			for _, c := range x.Accepted {
+				if !c.IsClosed() {
+					cnt++
+				}
+			}
+		}
+	}
 	ln := "nil"
 	if l != nil {
 		ln = "other"
@@ -275,7 +286,7 @@ func lcBody(d lcDesc) func() {
 				st.shutStart[k] = w.ev("shutdown-start %d round=%d parked=%d", k, r, st.shutPark[k])
 				w.S.Shutdown()
 				_, _, cnt, _, _ := w.S.VerifPeek()
-				if cnt < 0 {
+				if cnt < 0 && cnt != varlink.VerifUnknown {
 					st.negCount = true
 				}
 				st.shutRet[k] = w.ev("shutdown-ret %d", k)
